@@ -1,4 +1,4 @@
 SPECIFICATION ASpec
 CONSTANTS
-  Labels = {"", "probe00"}
+  Labels = {"", "probe00", "a"}
 INVARIANT EmitCase
